@@ -166,5 +166,26 @@ class Mirrored(DBC):
         self.tail = tail
 
 
+@invariant(lambda self: len(self.blank) <= 0, "Blank is empty")
+@invariant(lambda self: 1 > len(self.nothing), "Nothing is empty")
+@invariant(lambda self: len(self.vacant) == 0, "Vacant is empty")
+class Empty_only(DBC):
+    """Represent values which must stay empty (upper bounds of zero)."""
+
+    blank: str
+    """Blank"""
+
+    nothing: List[str]
+    """Nothing"""
+
+    vacant: List[str]
+    """Vacant"""
+
+    def __init__(self, blank: str, nothing: List[str], vacant: List[str]) -> None:
+        self.blank = blank
+        self.nothing = nothing
+        self.vacant = vacant
+
+
 __version__ = "V0"
 __xml_namespace__ = "https://example.invalid/verif"
